@@ -183,9 +183,16 @@ def run(check, an: Analysis):
 def _accumulator(fn):
     """the local that accumulates the transferred volume (`acc += ...` inside the loop)"""
     loops = [n for n in ast.walk(fn.node) if isinstance(n, ast.While)]
-    augs = [n for loop in loops for n in ast.walk(loop) if isinstance(n, ast.AugAssign)
-            and isinstance(n.op, ast.Add) and isinstance(n.target, ast.Name)]
-    return augs[0].target.id if len(augs) == 1 else None
+    augs = [n.target.id for loop in loops for n in ast.walk(loop)
+            if isinstance(n, ast.AugAssign) and isinstance(n.op, ast.Add)
+            and isinstance(n.target, ast.Name)]
+    # `acc = acc + x` is the same accumulation for a number
+    augs += [n.targets[0].id for loop in loops for n in ast.walk(loop)
+             if isinstance(n, ast.Assign) and len(n.targets) == 1
+             and isinstance(n.targets[0], ast.Name) and isinstance(n.value, ast.BinOp)
+             and isinstance(n.value.op, ast.Add) and isinstance(n.value.left, ast.Name)
+             and n.value.left.id == n.targets[0].id]
+    return augs[0] if len(augs) == 1 else None
 
 
 def _clock_symbols(expr, path, index, fn):
@@ -211,9 +218,14 @@ def _clock_symbols(expr, path, index, fn):
                 names.add('NOW_')
             else:
                 found = rules.reaching_store(path, index, node.id)
-                if found is not None and found[1].get('value') is not None and \
-                        rules.is_current_time(found[1]['value'], found[1].fn):
-                    names.add(node.id)
+                if found is not None and found[1].get('value') is not None:
+                    held = rules.value_expr(path, found[0], found[1]['value'],
+                                            keep_clock=False)
+                    if rules.is_current_time(found[1]['value'], found[1].fn) or \
+                            rules.is_clock_call(held, found[1].fn) or (
+                                isinstance(held, ast.Attribute)
+                                and rules.is_current_time(held, found[1].fn)):
+                        names.add(node.id)
     return tree, names
 
 
@@ -290,13 +302,18 @@ def _check_formulas(check, an: Analysis, transfer, throttle, paths):
                 start, end = pair
                 s_pos = rules.reaching_store(path, index, start)
                 e_pos = index if end == 'NOW_' else rules.reaching_store(path, index, end)[0]
+                # wherever the scale is read on the way to this amount (a store, or the
+                # result of a helper run in place): between the previous accounting and
+                # the wait
                 rate_ok = scale not in ast.unparse(event['value'])
-                for node in ast.walk(event['value']):
-                    if isinstance(node, ast.Name) and node.id not in (acc, start, end):
-                        found = rules.reaching_store(path, index, node.id)
-                        if found is not None and scale in rules.value_text(
-                                path, index, node, keep=(acc,)):
-                            rate_ok &= lo < found[0] < wait
+                reads = []
+                rules.value_expr(path, index, event['value'], keep=(acc,), trace=reads)
+                for pos in reads:
+                    seen = path.events[pos]
+                    raw = seen.data.get('value') if seen.kind == 'store' \
+                        else seen.data.get('ret')
+                    if raw is not None and scale in ast.unparse(raw):
+                        rate_ok &= lo < pos < wait
                 ok = s_pos is not None and lo < s_pos[0] < wait and e_pos > waits[0] \
                     and rate_ok
                 if not ok:
